@@ -166,8 +166,11 @@ def gen_driver(facts, cfg, include_source=True):
     # "Example 1" in the generated header) - the shell has to keep its own copy; the instance name is a temporary
     # std::string as well
     w('static long g_log_calls = 0;')
-    temp_log = (f'{sns}::ILog{{[](const std::string&){{ ++g_log_calls; }}, [](const std::string&){{ ++g_log_calls; }}, '
-                '[](const std::string&){ ++g_log_calls; }}, ') if mcport else ''
+    w('static bool g_client_handler_throws = false;   // FAILURE PATHS: the out-event handlers of the clients throw after recording the hit')
+    w('static long g_log_throw_at = -1;   // FAILURE PATHS: the k-th call of the user\'s log sink throws')
+    w('static void log_sink_() { if (++g_log_calls == g_log_throw_at) throw std::runtime_error("log sink failed"); }')
+    temp_log = (f'{sns}::ILog{{[](const std::string&){{ log_sink_(); }}, [](const std::string&){{ log_sink_(); }}, '
+                '[](const std::string&){ log_sink_(); }}, ') if mcport else ''
     w('struct Fix { Env env; std::unique_ptr<Shell> sh; Comp* comp = nullptr; dzn::pump* pump = nullptr;')
     w(f'  Fix() : env({"false, false, true" if create else "true, true, true"}) {{')
     w('    verif::registry().reset();')
@@ -193,7 +196,7 @@ def gen_driver(facts, cfg, include_source=True):
         if pc.mc and ev.direction == 'out':
             w('  for (int ci = 0; ci < nclients; ++ci) { const std::string client_ = CLIENTS[g_order[ci]];')
             w(f'    if (skip != idx) {pc.record_side(ev)} = ' +
-              recorder(pc.tag(ev) + '@', ev, ', client_').replace(f'H.hit("{pc.tag(ev)}@")', f'H.hit("{pc.tag(ev)}@" + client_)') + ';')
+              recorder(pc.tag(ev) + '@', ev, ', client_').replace(f'H.hit("{pc.tag(ev)}@")', f'H.hit("{pc.tag(ev)}@" + client_); if (g_client_handler_throws) throw std::runtime_error("the handler of the client failed")') + ';')
             w('    ++idx; }')
         elif pc.mc:
             w(f'  if (skip != idx) {pc.record_side(ev)} = {recorder(pc.tag(ev), ev)}; ++idx;')
@@ -439,6 +442,24 @@ def gen_driver(facts, cfg, include_source=True):
     w('    verif::emit("C10", "bind-unbind-histories", "succeeds-once-everything-is-bound/clients=" + std::to_string(ncl), failures[1] == 0, "histories=" + std::to_string(histories) + " failures=" + std::to_string(failures[1]) + " " + first_fail[1]);')
     w('  }')
     if mcport:
+        # C10 fault injection: the user's log sink throws at its k-th call, for EVERY k of the sequence [register two clients
+        # and bind everything (one out-event of a client left out / nothing left out), FinalConstruct]; the failed step is
+        # repeated once with a healthy sink; at the end final construction must have detected the unbound event / succeeded
+        w('  { const int ncl = 2; int miss_idx = -1; for (int k = 0; k < count_bindings(ncl); ++k) if (binding_name(k, ncl).find("@") != std::string::npos) { miss_idx = k; break; }')
+        w('    long ncalls = 0; { Fix fx; g_log_calls = 0; g_log_throw_at = -1; bind_all(*fx.sh, *fx.comp, *fx.pump, -1, ncl); std::string w0; (void)throws([&]{ fx.sh->FinalConstruct(&parent); }, w0); ncalls = g_log_calls; }')
+        w('    long bad = 0, runs = 0; std::string first;')
+        w('    for (int miss : {-1, miss_idx}) for (long k = 1; k <= ncalls + 1; ++k) { if (miss == -1 && miss_idx == -1 && false) continue; ++runs;')
+        w('      Fix fx; g_log_calls = 0; g_log_throw_at = k; std::string note;')
+        w('      auto healthy_retry = [&](const std::function<void()>& step) { try { step(); } catch (const std::runtime_error& e) { if (std::string(e.what()) != "log sink failed") throw; g_log_throw_at = -1; note += "(sink failed, step repeated) "; step(); } };')
+        w('      bool fc_threw = false; std::string what;')
+        w('      try { healthy_retry([&]{ bind_all(*fx.sh, *fx.comp, *fx.pump, miss, ncl); });')
+        w('            healthy_retry([&]{ fx.sh->FinalConstruct(&parent); }); }')
+        w('      catch (const std::exception& e) { fc_threw = true; what = e.what(); }')
+        w('      g_log_throw_at = -1;')
+        w('      bool ok = (miss >= 0) ? fc_threw : !fc_threw;')
+        w('      if (!ok) { ++bad; if (first.empty()) first = "log sink throws at call " + std::to_string(k) + " " + note + (miss >= 0 ? "with " + binding_name(miss, ncl) + " unbound: final construction returned" : "everything bound: final construction failed: " + what); } }')
+        w('    verif::emit("C10", "log-sink-fault-injection", "clients=2", bad == 0, "fault points=" + std::to_string(ncalls) + " runs=" + std::to_string(runs) + " failures=" + std::to_string(bad) + " " + first);')
+        w('  }')
         out.extend(gen_c04(facts, cfg, mcport, events))
     w('  verif::emit("LAB", "done", "main", true, "");')
     w('  return 0;')
@@ -519,6 +540,13 @@ def gen_c04(facts, cfg, mcport, events):
     w('      };')
     w('      probe("initially");')
     w('      for (size_t i = 0; i < hist.size(); ++i) {')
+    w('        if (hist[i] == 128) {   // the component raises an out-event and the handler of the receiving client THROWS: the state is as before')
+    w('          H.reset(); g_client_handler_throws = true; bool propagated = false;')
+    w('          try { ' + args_decl(oev) + f' comp_.{p.name}.out.{oev.name}({args_call(oev)}); }} catch (const std::runtime_error&) {{ propagated = true; }}')
+    w('          g_client_handler_throws = false; std::string why;')
+    w('          if (!acceptable(H.log, why)) { oc.ok = false; if (oc.detail.empty()) oc.detail = "out-event whose handler throws: " + why; }')
+    w('          if (!H.log.empty() && !propagated) { oc.ok = false; if (oc.detail.empty()) oc.detail = "the exception of the client handler was swallowed"; }')
+    w('          probe("after the out-event whose handler threw (op " + std::to_string(i) + ")"); continue; }')
     w('        int op = hist[i] % 64, kind = op / 16, c = (op / 4) % 4, r = op % 4; const std::string client_ = CLIENTS[c]; H.reset();')
     w('        inner = hist[i] >= 64;')
     w('        // with inner: first hit = the in-event at the component, the rest = deliveries of the inner out-event, which is')
@@ -552,7 +580,7 @@ def gen_c04(facts, cfg, mcport, events):
     w('      std::ostringstream st; st << sel << "/"; for (int h : S) st << h; st << "/"; for (int h : L) st << h; oc.state = st.str() + "#" + last_probe;')
     w('      return oc;')
     w('    };')
-    w('    auto opname = [&](int op) { bool in_ = op >= 64; op %= 64; int kind = op / 16, c = (op / 4) % 4, r = op % 4; std::string s = std::string(in_ ? "+inner-out-event:" : "") + (kind == 0 ? "claim" : kind == 1 ? "release" : "other" + std::to_string(kind - 2)); s += "(" + CLIENTS[c] + ")"; if (kind == 0) s += "=" + std::string(r == GRANT ? "GRANT" : "deny" + std::to_string(r)); return s; };')
+    w('    auto opname = [&](int op) { if (op == 128) return std::string("out-event(handler throws)"); bool in_ = op >= 64; op %= 64; int kind = op / 16, c = (op / 4) % 4, r = op % 4; std::string s = std::string(in_ ? "+inner-out-event:" : "") + (kind == 0 ? "claim" : kind == 1 ? "release" : "other" + std::to_string(kind - 2)); s += "(" + CLIENTS[c] + ")"; if (kind == 0) s += "=" + std::string(r == GRANT ? "GRANT" : "deny" + std::to_string(r)); return s; };')
     w('    const char* depth_env = std::getenv("VF_C04_DEPTH"); int unpruned_depth = depth_env ? std::atoi(depth_env) : 3;')
     w('    const char* ncl_env = std::getenv("VF_C04_CLIENTS"); int max_clients = ncl_env ? std::atoi(ncl_env) : 2;')
     w('    const char* bfs_env = std::getenv("VF_C04_BFS_DEPTH"); int bfs_depth = bfs_env ? std::atoi(bfs_env) : 6;')
@@ -594,6 +622,24 @@ def gen_c04(facts, cfg, mcport, events):
     w('        level.swap(next); }')
     w('      verif::emit("C04", "histories-inner-out-events", "clients=" + std::to_string(ncl), failures == 0, "histories=" + std::to_string(histories) + " failures=" + std::to_string(failures) + " " + first_fail);')
     w(f'      verif::emit("C01", "route-reentrant", "{mcport.tag(outs[0])}@while-handling-a-client-in-event", failures == 0, first_fail);')
+    w('    }')
+    w('    // (6) FAILURE PATHS: the out-event handler of the receiving client throws: all histories to depth 3 over the')
+    w('    //     alphabet extended with that operation, at least one of them in the history')
+    w('    for (int ncl = 1; ncl <= max_clients; ++ncl) {')
+    w('      std::vector<int> alphabet;')
+    w('      for (int c = 0; c < ncl; ++c) { for (int r = 0; r < NF; ++r) alphabet.push_back(0 * 16 + c * 4 + r); alphabet.push_back(1 * 16 + c * 4);')
+    w(f'        for (int k = 0; k < {len(others)}; ++k) alphabet.push_back((2 + k) * 16 + c * 4); }}')
+    w('      alphabet.push_back(128);')
+    w('      long histories = 0, failures = 0; std::string first_fail;')
+    w('      std::vector<std::vector<int>> level{{}};')
+    w('      for (int d = 0; d <= 3; ++d) { std::vector<std::vector<int>> next;')
+    w('        for (auto& h : level) { bool any_throw = false; for (int op : h) any_throw = any_throw || op == 128;')
+    w('          if (any_throw) { Outcome oc = run(h, ncl); ++histories;')
+    w('            if (!oc.ok) { ++failures; if (first_fail.empty()) { first_fail = "["; for (int op : h) first_fail += opname(op) + " "; first_fail += "] " + oc.detail; } } }')
+    w('          if (d < 3) for (int op : alphabet) { auto n = h; n.push_back(op); next.push_back(n); } }')
+    w('        level.swap(next); }')
+    w('      verif::emit("C04", "histories-client-handler-throws", "clients=" + std::to_string(ncl), failures == 0, "histories=" + std::to_string(histories) + " failures=" + std::to_string(failures) + " " + first_fail);')
+    w(f'      verif::emit("C01", "route-after-a-handler-threw", "{mcport.tag(outs[0])}", failures == 0, first_fail);')
     w('    }')
     w('    // (3) every other ORDER in which the same clients can be registered: all histories to depth 2')
     w('    for (int ncl = 2; ncl <= max_clients; ++ncl) {')
@@ -690,6 +736,12 @@ def gen_c04(facts, cfg, mcport, events):
     w('      for (auto& o : orders_of(ids, true)) { ++norders; problem = many(o, true); if (!problem.empty()) { std::string os_; for (auto& x : o) os_ += x + " "; problem = "registration order [" + os_ + "]: " + problem; break; } }')
     w('      verif::emit("C04", "many-clients-short-identifiers", "clients=" + std::to_string(N), problem.empty(), "orders=" + std::to_string(norders) + " " + problem);')
     w('      verif::emit("C10", "fully-bound", "many-clients-short-identifiers=" + std::to_string(N), problem.find("FinalConstruct throws") == std::string::npos, problem);')
+    w('    }')
+    w('    { // identifiers that differ only in surrounding white space (blank, tab, line break), a blank-only identifier, an inner blank')
+    w('      static const std::vector<std::string> BLANK_IDS = {" B", "B ", "B", "\\tD", "D\\n", " ", "front desk", "b", "  B", "D"};')
+    w('      for (int N : {3, 6, 10}) { std::vector<std::string> ids(BLANK_IDS.begin(), BLANK_IDS.begin() + N); std::string problem; int norders = 0;')
+    w('        for (auto& o : orders_of(ids, true)) { ++norders; problem = many(o, true); if (!problem.empty()) { std::string os_; for (auto& x : o) os_ += "\"" + x + "\" "; problem = "registration order [" + os_ + "]: " + problem; break; } }')
+    w('        verif::emit("C04", "many-clients-blank-identifiers", "clients=" + std::to_string(N), problem.empty(), "orders=" + std::to_string(norders) + " " + problem); }')
     w('    }')
     if cfg.get('permall'):
         w('    { // EVERY registration order of six (quick: 720 shells) / eight (thorough: 40 320 shells) short identifiers')
